@@ -1,18 +1,20 @@
 """C05 — wire fast path and decoded path are observationally equivalent."""
 
-_H = {"server": ["zz_verif_srv_*.go", "zz_verif_c05_test.go", "zz_verif_c05_limiter_test.go", "zz_verif_c06_test.go"], "middleware": ["zz_verif_export.go"]}
+_H = {"server": ["zz_verif_srv_*.go", "zz_verif_c05_test.go", "zz_verif_c05_limiter_test.go", "zz_verif_c05_casesize_test.go", "zz_verif_c06_test.go"], "middleware": ["zz_verif_export.go"]}
 
 CHECK = {
     "level": "exploration",
     "engines": ["space"],
     "technique": "bounded-exhaustive differential enumeration (config x cache state x packet shape x transport) of the real Server entry paths: strict wire-born vs reader-inline+replay vs decoded entry vs ServeMsg, replies compared as decoded messages plus upstream hand-off",
-    "level_text": "For every configuration, every cached/uncached target (A hit, cached CNAME chain, alias with uncached target, signed answer, NXDOMAIN with proof, descendant of a denied name, NODATA, EDE-bearing, >1232 B, ~512 B, cached SERVFAIL, REFUSED, miss, hosts-file name, empty zone, root) and every packet shape of the alphabet (each header flag, opcodes, section counts 0-3, name forms incl. pointer/truncated/upper-case, qtypes/classes incl. unknown, OPT shapes: sizes 0-65535, version 1, ext-rcode, non-root owner, second OPT, bad rdlen, trailing bytes, 15 option kinds and mixes) on UDP and TCP, the packet is served by the real Server through the real udpJob/tcpJob strict path, the reader-inline path with worker replay, the decoded entry and ServeMsg; the replies must decode to the same message (header bits, rcode, question, sorted sections with TTLs, EDNS version/size/DO/option multiset), agree on drop vs reply, and agree on whether resolution was reached.",
+    "level_text": "For every configuration, every cached/uncached target (A hit, cached CNAME chain, alias with uncached target, signed answer, NXDOMAIN with proof, descendant of a denied name, NODATA, EDE-bearing, >1232 B, ~512 B, cached SERVFAIL, REFUSED, miss, hosts-file name, empty zone, root) and every packet shape of the alphabet (each header flag, opcodes, section counts 0-3, name forms incl. pointer/truncated/upper-case, qtypes/classes incl. unknown, OPT shapes: sizes 0-65535, version 1, ext-rcode, non-root owner, second OPT, bad rdlen, trailing bytes, 15 option kinds and mixes) on UDP and TCP, the packet is served by the real Server through the real udpJob/tcpJob strict path, the reader-inline path with worker replay, the decoded entry and ServeMsg; the replies must decode to the same message (header bits, rcode, question, sorted sections with TTLs, EDNS version/size/DO/option multiset), agree on drop vs reply, and agree on whether resolution was reached. casesize: cached answers with every record count in a window around each datagram limit (22-34 A records for 512 without OPT, 66-78 for 1232 with OPT) x query-name spelling {as stored, upper case, alternating case} x OPT on/off, on every UDP entry path incl. the message path (ServeMsg): the paths must agree on (rcode, TC, records per section) - the property allows differences in compression and owner-name case only.",
     "level_note": "Trusted: miekg Unpack as the decoder of both replies; the harness' re-implementation of the engines' 12-line header accept step (the real acceptHeader/rejectInPlace are called); real sockets, readers and batching are out of scope here (C10/C11). Limiter-token side effects are compared only through replies (rate-limit configs in thorough).",
     "rule": "cases = config x target x transport x packet; 'nontrivial' = distinct cases that produced a reply on the reference path",
     "assumptions": ["the scripted upstream answers unscripted names with TC=1 so that serving a packet does not change cache state between the paths"],
     "bounds": {"quick": "3 configs x 16 targets x 2 transports x ~150 packets x 3-4 paths, each packet also right after another client's EDNS query on the same recycled slab; limiter unit: every sequence of <= 3 cookie-shaped queries (2 transports x 7 cookie forms) + 7 plain probes, per entry path with its own client bucket", "thorough": "5 configs, + all option pairs and all 128 flag combinations"},
     "units": {
         "sweep": {"pkg": "server", "run": "TestVerifC05", "harness": _H, "stub_tests": ["server"], "budget_s": {"quick": 80, "thorough": 700}},
+        # truncation decision at the datagram limit for queries spelled in another case than the stored answer (0x20)
+        "casesize": {"pkg": "server", "run": "TestVerifC05CaseSize", "harness": _H, "stub_tests": ["server"], "shards": 4, "budget_s": {"quick": 40, "thorough": 60}},
         # side effects later queries can see: limiter tokens and the remembered cookie, per entry path
         "limiter": {"pkg": "server", "run": "TestVerifC05Limiter", "harness": _H, "stub_tests": ["server"], "budget_s": {"quick": 60, "thorough": 300}},
     },
